@@ -193,8 +193,56 @@ def content_returns(ctx, n):
         ctx.dist("content_returns_histories")
 
 
+def gaps_below_interrupted(ctx, n):
+    """Deleting versions leaves holes in the numbering: here directly below an interrupted version that has become the newest
+    one.  'Latest complete' must still be the newest completed version that was not deleted, however far down it sits."""
+    cases = []
+    for t in range(n):
+        trees = [scen.small_tree(ctx.rng)]
+        for _ in range(3):
+            nt, _m = gen.mutate_tree(ctx.rng, trees[-1])
+            nt["c"][f"gen{len(trees)}"] = {"k": "f", "data": ("version %d" % len(trees)).encode().hex(), "mode": 0o644, "mtime": 10**18 + len(trees)}
+            trees.append(nt)
+        o = scen.small_opts(ctx.rng)
+        steps = [{"op": "init"}]
+        for j, tr in enumerate(trees):
+            st = {"op": "backup", "opts": o}
+            if j == 2:
+                st["plan"] = {"crash": ctx.rng.choice([18, 22, 26])}          # the third backup is interrupted
+            steps += [{"op": "mktree", "path": "src", "tree": tr}, {"op": "snap", "path": "src"}, st]
+        dels = [[1], [3]] if t % 2 == 0 else [[3, 1]]
+        for d in dels:
+            steps.append({"op": "delete", "bands": d})
+        steps += [{"op": "versions"}, {"op": "restore", "dest": "latest"}, {"op": "restore", "band": 0, "dest": "zero"}]
+        cases.append({"id": f"gp{t}", "steps": steps, "ndel": len(dels)})
+    res = ctx.cvh_run(cases)
+    for c in cases:
+        r = res.get(c["id"])
+        ctx.count()
+        small = {"steps": c["steps"]}
+        if r is None or any(isinstance(x, dict) and x.get("panic") for x in r):
+            ctx.oracle_fail("history/panic", "an operation crashed or hung", small)
+            continue
+        n_ = len(c["steps"])
+        snap0 = r[2]["tree"]
+        if not r[9].get("crashed") or any(r[k].get("result") != "ok" for k in (3, 6, 12)) or any(r[n_ - 4 - i].get("result") != "ok" for i in range(c["ndel"])):
+            continue          # (the kill landed before the interrupted version had a head, or a delete was refused: another history)
+        latest, zero = r[n_ - 2], r[n_ - 1]
+        if zero.get("result") != "ok" or scen.first_difference(scen.strip(snap0), scen.strip(zero.get("tree"))):
+            ctx.oracle_fail("history/version-differs", "after deleting other versions, completed version b0000 does not restore to its snapshot", small)
+            continue
+        if latest.get("result") != "ok" or latest.get("monitor_errors") or scen.first_difference(scen.strip(snap0), scen.strip(latest.get("tree"))):
+            ctx.oracle_fail("history/latest-complete-fails" if latest.get("result") != "ok" else "history/latest-complete-not-newest",
+                            f"versions: b0000 complete, b0002 interrupted, b0001 and b0003 deleted: 'latest complete' does not give b0000: "
+                            f"{json.dumps(latest.get('err') or latest.get('monitor_errors'))[:200]}", small)
+            continue
+        ctx.nontrivial("gaps:" + c["id"])
+        ctx.dist("gaps_below_interrupted_histories")
+
+
 def run(ctx):
     quick = ctx.tier == "quick"
+    gaps_below_interrupted(ctx, 4 if quick else 40)
     long_lived_handle(ctx, 6 if quick else 60)
     content_returns(ctx, 6 if quick else 60)
     cases = build(ctx, 36 if quick else 400, 8 if quick else 18)
